@@ -36,7 +36,7 @@ UNITS = [
       timeout=600, min_obl=885, unwind=68, replay=False, note="static helpers: save(load(bytes)) == bytes on valid objects, magic gate"),
     U("C12.nonce_process", ["C12"], "harness/C12/nonce_process.c", "h_nonce_process",
       replace=HASH + ["secp256k1_schnorrsig_challenge", "secp256k1_ecmult", "secp256k1_gej_add_ge_var", "secp256k1_ge_set_gej", "secp256k1_scalar_mul"],
-      assumed=["secp256k1_ecmult", "secp256k1_gej_add_ge_var", "secp256k1_ge_set_gej", "secp256k1_scalar_mul"],
+      assumed=["secp256k1_ecmult", "secp256k1_gej_add_ge_var", "secp256k1_ge_set_gej", "secp256k1_scalar_mul", "secp256k1_schnorrsig_challenge"] + HASH,   # challenge / hash stream summaries: proved at value level elsewhere (C02, C05), frames not enforced here
       functions=["secp256k1_musig_nonce_process", "secp256k1_musig_nonce_process_internal", "secp256k1_musig_compute_noncehash", "secp256k1_effective_nonce", "secp256k1_musig_ge_serialize_ext",
                  "secp256k1_musig_aggnonce_load", "secp256k1_keyagg_cache_load", "secp256k1_musig_session_save", "secp256k1_pubkey_load"],
       timeout=1800, min_obl=4000, unwind=68, replay=False,
@@ -44,7 +44,7 @@ UNITS = [
     U("C12.partial_sig_verify", ["C12", "C07"], "harness/C12/psig_verify.c", "h_psig_verify",
       # ecmult_multi_var is not called by the unchanged code: listed so that a refactoring to the multi-multiplication stays decidable
       replace=["secp256k1_ecmult", "secp256k1_ecmult_multi_var", "secp256k1_gej_add_var", "secp256k1_scalar_mul", "secp256k1_musig_keyaggcoef", "secp256k1_effective_nonce"],
-      assumed=["secp256k1_ecmult", "secp256k1_gej_add_var", "secp256k1_scalar_mul", "secp256k1_musig_keyaggcoef"],
+      assumed=["secp256k1_ecmult", "secp256k1_gej_add_var", "secp256k1_scalar_mul", "secp256k1_musig_keyaggcoef", "secp256k1_effective_nonce"],   # effective_nonce: body exercised in C12.nonce_process, frame not enforced (audit #23)
       functions=["secp256k1_musig_partial_sig_verify", "secp256k1_musig_session_load", "secp256k1_musig_pubnonce_load", "secp256k1_pubkey_load", "secp256k1_keyagg_cache_load",
                  "secp256k1_musig_partial_sig_load", "secp256k1_gej_neg", "secp256k1_scalar_negate"],
       timeout=900, min_obl=2123, unwind=68, replay=False,
@@ -52,7 +52,7 @@ UNITS = [
     U("C12.keyaggcoef", ["C12"], "harness/C12/keyagg.c", "h_keyaggcoef", replace=HASH,
       functions=["secp256k1_musig_keyaggcoef_internal", "secp256k1_ge_eq_var", "secp256k1_fe_equal", "secp256k1_eckey_pubkey_serialize33"],
       timeout=600, min_obl=1873, unwind=40, replay=False, note="second-key rule and coefficient hash layout; also proves the pk-preservation clause of the keyaggcoef summary contract"),
-    U("C12.keyagg_callback", ["C12"], "harness/C12/keyagg.c", "h_keyagg_callback", defs=["KEYAGG_CALLBACK_ENTRY"], replace=["secp256k1_musig_keyaggcoef_internal"],
+    U("C12.keyagg_callback", ["C12"], "harness/C12/keyagg.c", "h_keyagg_callback", defs=["KEYAGG_CALLBACK_ENTRY"], replace=["secp256k1_musig_keyaggcoef_internal"], assumed=["secp256k1_musig_keyaggcoef_internal"],   # value clauses asserted by C12.keyaggcoef, frame not enforced (audit #23)
       functions=["secp256k1_musig_pubkey_agg_callback", "secp256k1_pubkey_load"], timeout=600, min_obl=422, unwind=70, replay=False,
       note="per-key callback wiring (point idx, list hash, second key)"),
     U("C12.pubkey_agg", ["C12"], "harness/C12/keyagg.c", "h_pubkey_agg", replace=HASH + ["secp256k1_ecmult_multi_var", "secp256k1_ge_set_gej"],
@@ -74,7 +74,7 @@ UNITS = [
     U("C12.partial_sign_value", ["C12"], "harness/C12/psign_value.c", "h_psign_value",
       replace=["secp256k1_scalar_mul", "secp256k1_musig_keyaggcoef"], assumed=["secp256k1_scalar_mul", "secp256k1_musig_keyaggcoef"],
       functions=["secp256k1_musig_partial_sign", "secp256k1_scalar_add", "secp256k1_scalar_negate", "secp256k1_musig_partial_sig_save"],
-      timeout=900, min_obl=300, replay=False, solver="cadical",
+      timeout=900, min_obl=1500, replay=False, solver="cadical",
       note="value of the partial signature over logged oracles (audit #27); sign conventions; coefficient tied to the cache content"),
     U("C12.nonce_function", ["C12", "C13"], "harness/C12/nonce_function.c", "h_nonce_function", replace=HASH,
       functions=["secp256k1_nonce_function_musig", "secp256k1_nonce_function_musig_helper", "secp256k1_nonce_function_musig_sha256_tagged",
